@@ -42,7 +42,9 @@ DEFAULT_OPTS = {
     "retype": True,
     "retype_to_dir": True,
     "rename_full_dirs": True,
+    "renames": True,
     "neg_half_tz": True,
+    "inside_links": False,  # symlink targets never leave the directory of the link
     "swap": True,
     "odd_names": False,
     "big": True,
@@ -179,8 +181,10 @@ def _text(rng, mh, opts, old=None):
     return s
 
 
-def _target(rng, mh):
+def _target(rng, mh, opts=None):
     mh.ncontent += 1
+    if opts and opts.get("inside_links"):
+        return rng.choice(["nowhere-%d", "dir/sub-%d", "t%d"]) % mh.ncontent
     return rng.choice(["nowhere-%d", "../out-%d", "dir/sub-%d", "t%d"]) % mh.ncontent
 
 
@@ -271,14 +275,14 @@ def gen_spec(rng, mh, rid, parents, ts, opts, nchanges=None, merge_tree=None):
             if r2 < 0.22:
                 do(["add", path, fid, DIR, None, False])
             elif r2 < 0.4 and o["symlinks"]:
-                do(["add", path, fid, LINK, _target(rng, mh), False])
+                do(["add", path, fid, LINK, _target(rng, mh, o), False])
             else:
                 do(["add", path, fid, FILE, _text(rng, mh, o), bool(o["exec"] and rng.random() < 0.3)])
             touched.add(path)
         elif r < 0.55:
             p = rng.choice(files + links)
             if tree[p][1] == LINK:
-                do(["modify", p, _target(rng, mh)])
+                do(["modify", p, _target(rng, mh, o)])
             else:
                 do(["modify", p, _text(rng, mh, o, tree[p][2])])
             touched.add(p)
@@ -299,7 +303,7 @@ def gen_spec(rng, mh, rid, parents, ts, opts, nchanges=None, merge_tree=None):
             cand = files + links + dirs
             p = rng.choice(cand)
             new = free_name()
-            if new is None or inside(p, new) or any(inside(p, t) for t in touched):
+            if not o["renames"] or new is None or inside(p, new) or any(inside(p, t) for t in touched):
                 continue
             if not o["rename_full_dirs"] and any(q != p and inside(p, q) for q in tree):
                 continue
@@ -307,7 +311,7 @@ def gen_spec(rng, mh, rid, parents, ts, opts, nchanges=None, merge_tree=None):
             touched.update((p, new))
             if tree[new][1] == FILE and rng.random() < 0.3:
                 do(["modify", new, _text(rng, mh, o, tree[new][2])])
-        elif r < 0.93 and o["swap"]:
+        elif r < 0.93 and o["swap"] and o["renames"]:
             cand = files + links + dirs
             if len(cand) < 2:
                 continue
@@ -329,7 +333,7 @@ def gen_spec(rng, mh, rid, parents, ts, opts, nchanges=None, merge_tree=None):
             if nk == FILE:
                 do(["retype", p, FILE, _text(rng, mh, o), bool(o["exec"] and rng.random() < 0.3)])
             elif nk == LINK:
-                do(["retype", p, LINK, _target(rng, mh), False])
+                do(["retype", p, LINK, _target(rng, mh, o), False])
             else:
                 do(["retype", p, DIR, None, False])
             touched.add(p)
@@ -582,15 +586,22 @@ def check_built(repo, hist, revids=None):
             raise AssertionError(f"histsim: parents of {rid}: {rev.parent_ids} vs {hist.revs[rid]['parents']}")
 
 
-def relativise_log(sim):
-    """Scratch paths embed pids: keep them out of the event log (and so of the digest)."""
+def relativise_log(sim, subs=()):
+    """Scratch paths embed pids: keep them out of the event log (and so of the digest).
+    `subs` = extra (compiled regex, replacement) pairs applied to every field."""
     if getattr(sim, "_hist_rel", False):
         return
     orig = sim.event
     base = os.environ["VERIF_SCRATCH"]
 
     def event(*fields, vol=None):
-        orig(*[str(f).replace(base, "<S>") for f in fields], vol=vol)
+        out = []
+        for f in fields:
+            f = str(f).replace(base, "<S>")
+            for rx, rep in subs:
+                f = rx.sub(rep, f)
+            out.append(f)
+        orig(*out, vol=vol)
 
     sim.event = event
     sim._hist_rel = True
